@@ -185,7 +185,7 @@ void run(const Scn &sc)
   }
   mc_label("main:check");
   std::string peerGot = peer.conns.empty() ? "" : peer.conns[0].appIn;
-  std::string wire = peer.conns.empty() ? "" : simk_peer_txlog(peer.conns[0].fd); // what the ENGINE put on the wire
+  std::string wire = peer.conns.empty() ? "" : peer.conns[0].wire(); // what the ENGINE put on the wire
   size_t peerSentParts = peer.conns.empty() ? 0 : peer.conns[0].sentParts;
 
   std::vector<const SendRec *> acc;
